@@ -115,7 +115,13 @@ def outcome_of(fn, clock, budget, inject_at=None):
     except (KeyboardInterrupt, SystemExit):
         raise
     except BaseException as e:
-        return {"kind": "exc:" + type(e).__name__, "exc": e, "where": innermost_repo_frame(e), "steps": getattr(e, "_sim_steps", 0)}
+        kind = "exc:" + type(e).__name__
+        tb = traceback.extract_tb(e.__traceback__)
+        if tb and tb[-1].filename.startswith(os.path.join(VERIF_DIR, "sim", "gateset")):
+            # raised *inside* the stub's gate-matrix function (e.g. math.cos(inf) for a
+            # corrupted angle): user code failing, not the library
+            kind = "exc-in-stub:" + type(e).__name__
+        return {"kind": kind, "exc": e, "where": innermost_repo_frame(e), "steps": getattr(e, "_sim_steps", 0)}
 
 
 class SimSampler:
